@@ -127,6 +127,8 @@ fn main() {
         "c19b" => props::c19::run_b(seed, n, &mut out),
         "c01" => props::recvfm::run(seed, n, &mut out, false),
         "c02" => props::recvfm::run(seed, n, &mut out, true),
+        "c09" => props::recvfm::run_enums(seed, n, &mut out),
+        "c17" => props::recvfm::run_suggest(seed, n, &mut out),
         "c13" => props::fm::run_c13(seed, n, &mut out),
         "c14" => props::fm::run_c14(seed, n, &mut out),
         "c15b" => props::fm::run_c15b(seed, n, &mut out),
